@@ -133,7 +133,7 @@ def gen_spec(g, dt):
     return spec
 
 
-def gen_points(g, spec, n, dt):
+def gen_points(g, spec, n, dt, seam_hair=True):
     """x (float64 values exactly representable in dt), per-dim role, interior mask."""
     d = spec["d"]
     lo, hi = spec["lo"], spec["hi"]
@@ -173,6 +173,14 @@ def gen_points(g, spec, n, dt):
             x[:, j] = np.where(special < 0.05, lo[j], x[:, j])
             x[:, j] = np.where((special >= 0.05) & (special < 0.1), hi[j], x[:, j])
             x[:, j] = np.where((special >= 0.1) & (special < 0.15), lo[j] - w * 1e-3, x[:, j])
+            # a hair below the seam (any period away): the remainder of a tiny negative offset rounds to the full width
+            # (not in fitting data: there the width-dependent side of the seam a point lands on would make the float32
+            # instance and its float64 twin fit different spreads - a property of the twin comparison, not of the library)
+            if seam_hair:
+                kk = g.integers(-3, 4, n)
+                hair = w * 10.0 ** g.uniform(-30, -15, n)
+                x[:, j] = np.where((special >= 0.15) & (special < 0.22), lo[j] + kk * w - hair, x[:, j])
+                x[:, j] = np.where((special >= 0.22) & (special < 0.27), np.nextafter(np.asarray(hi[j] + kk * w, dtype=dt), -np.inf).astype(float), x[:, j])
         else:
             base = 0.0
             rel = 1e-2 if dt == "float32" else 1e-8  # keep the spread resolvable in the dtype
@@ -285,7 +293,7 @@ def judge_diag(spec, xpn, dt, g, counters, viol):
     kind = spec["kind"]
     nfit = int(g.choice([8, 64, 257]))
     nb = int(g.choice([1, 2, 257]))
-    xfit, roles = gen_points(g, spec, nfit, dt)
+    xfit, roles = gen_points(g, spec, nfit, dt, seam_hair=not spec.get("affine"))
     xpts, _ = gen_points(g, spec, nb, dt)
     lo, hi = spec["lo"], spec["hi"]
     d = spec["d"]
@@ -298,7 +306,7 @@ def judge_diag(spec, xpn, dt, g, counters, viol):
 
     # ---- the same instance may have been fitted before on other data (re-fit must fully replace the fitted state)
     if g.random() < 0.5:
-        xold, _ = gen_points(g, spec, int(g.choice([8, 64])), dt)
+        xold, _ = gen_points(g, spec, int(g.choice([8, 64])), dt, seam_hair=False)
         for j, r in enumerate(roles):
             if r == "free":
                 xold[:, j] = xold[:, j] * 10 ** g.uniform(-3, 3) + g.normal()
@@ -352,11 +360,15 @@ def judge_diag(spec, xpn, dt, g, counters, viol):
         yy = y[:, j] if kind != "composite" or not spec["affine"] else x2[:, j]
         # with affine on, forward output is whitened: judge the wrapped value via the inverse image
         tolw = 8 * eps * (abs(lo[j]) + abs(hi[j]) + np.abs(xpts[:, j]) + w)
-        if (yy < lo[j] - tolw).any() or (yy >= hi[j] + tolw).any():
-            i = int(np.argmax((yy < lo[j] - tolw) | (yy >= hi[j] + tolw)))
-            viol.append({"mech": "C04/periodic-out-of-range", "detail": where(f"dim {j}: x={xpts[i,j]!r} wrapped to {yy[i]!r} not in [{lo[j]},{hi[j]})")})
-        elif (yy >= hi[j]).any() or (yy < lo[j]).any():
-            counters["periodic_seam_rounding"] += int(((yy >= hi[j]) | (yy < lo[j])).sum())
+        # the interval is half-open and the statement says "always": judged exactly, against the bounds as the transform
+        # holds them (cast to the width it computes in)
+        odt = np.asarray(to_np(y_arr)).dtype if kind != "composite" or not spec["affine"] else np.asarray(to_np(x2_arr)).dtype
+        lo_c, hi_c = float(np.asarray(lo[j]).astype(odt)), float(np.asarray(hi[j]).astype(odt))
+        if (yy < lo_c).any() or (yy >= hi_c).any():
+            i = int(np.argmax((yy < lo_c) | (yy >= hi_c)))
+            edge = "" if (yy[i] < lo_c - tolw[i] or yy[i] >= hi_c + tolw[i]) else "/lands-on-the-excluded-upper-bound" if yy[i] >= hi_c else "/below-lower-by-rounding"
+            viol.append({"mech": "C04/periodic-out-of-range" + edge, "detail": where(f"dim {j}: x={xpts[i,j]!r} wrapped to {yy[i]!r} not in [{lo_c},{hi_c})")})
+        counters["periodic_points_next_to_the_seam"] += int((np.abs(((xpts[:, j] - lo[j]) / w) - np.round((xpts[:, j] - lo[j]) / w)) < 1e-9).sum())
         k = (xpts[:, j] - yy) / w
         if (np.abs(k - np.round(k)) > 64 * eps * (1 + np.abs(k)) + tolw / w).any():
             i = int(np.argmax(np.abs(k - np.round(k))))
